@@ -1469,7 +1469,7 @@ func TestLLMNRClientQuery(t *testing.T) {
 
 type twiceCase struct {
 	Target string `json:"target"` // server, udp, tcp, llmnr-client, llmnr-server
-	Mode   string `json:"mode"`   // unstarted, twice, twice-concurrent
+	Mode   string `json:"mode"`   // unstarted, twice, twice-concurrent, restart
 }
 
 // guarded runs fn under the stop budget and turns a panic of fn into a message.
@@ -1508,6 +1508,7 @@ func checkTwice(c twiceCase) []vf.Finding {
 // runTwice is the case without the goroutine accounting around it.
 func runTwice(c twiceCase) []vf.Finding {
 	var stop func()
+	var start func() error
 	subject := c.Target + ".Stop"
 	switch c.Target {
 	case "llmnr-client":
@@ -1548,6 +1549,7 @@ func runTwice(c twiceCase) []vf.Finding {
 			return []vf.Finding{vf.F("harness", "cannot-start-server", "%v", err)}
 		}
 		stop = srv.Stop
+		start = srv.Start
 	}
 	var fs []vf.Finding
 	report := func(call string, returned bool, panicked string) {
@@ -1568,6 +1570,22 @@ func runTwice(c twiceCase) []vf.Finding {
 		if len(fs) == 0 {
 			r, p = guarded(stop)
 			report("second-stop", r, p)
+		}
+	case "restart":
+		// Start, Stop, Start, Stop on one object. Whether a stopped server can be started again is its own
+		// business (Start may return an error, or start something that serves nothing); what is asked is what
+		// the property says about stopping: the Stop after it returns, and nothing is left running
+		r, p := guarded(stop)
+		report("stop", r, p)
+		if len(fs) == 0 && start != nil {
+			var startErr error
+			r, p = guarded(func() { startErr = start() })
+			report("start-after-stop", r, p)
+			_ = startErr
+			if len(fs) == 0 {
+				r, p = guarded(stop)
+				report("stop-after-restart", r, p)
+			}
 		}
 	default:
 		var wg sync.WaitGroup
@@ -1595,9 +1613,12 @@ func TestStopTwiceOrUnstarted(t *testing.T) {
 	s.SetExhaustive()
 	vf.Enum(s, func(yield func(twiceCase)) {
 		for _, target := range []string{"server", "udp", "tcp", "llmnr-client", "llmnr-server"} {
-			for _, mode := range []string{"unstarted", "twice", "twice-concurrent"} {
+			for _, mode := range []string{"unstarted", "twice", "twice-concurrent", "restart"} {
 				if target == "llmnr-client" && mode == "unstarted" {
 					continue // NewClient starts the read loop
+				}
+				if strings.HasPrefix(target, "llmnr-") && mode == "restart" {
+					continue // no Start method: a closed LLMNR server or client is not started again
 				}
 				yield(twiceCase{target, mode})
 			}
